@@ -41,6 +41,8 @@ def file_text(g, i, extra_refs=(), broken=None):
     lines.append("def common")
     if broken == "procfail":
         lines.append("def boom")
+    if broken == "modelproc":
+        lines.append("def failmodel")
     for j in sorted(set(g[i]) | {i}):
         lines.append("ref r%d_%d -> d%d" % (i, j, j))
     lines.append("ref rc%d -> common" % i)
@@ -50,8 +52,6 @@ def file_text(g, i, extra_refs=(), broken=None):
         lines.append("def")
     if broken == "unresolved":
         lines.append("ref bad%d -> nosuchdef" % i)
-    if broken == "modelproc":
-        lines.append("def failmodel")
     return "\n".join(lines) + "\n"
 
 
